@@ -179,5 +179,11 @@ pub fn rhythm_universes(cfgs: &[ModeCfg], mlen: u32, reps: u32) -> Vec<MotifUniv
             let total = alpha.count_upto(mlen) - 1;
             MotifUniverse { name: format!("rhythm/{}to{}/len<={mlen}-x{reps}/|A|={}", cfg.src, cfg.dst, alpha.len()), cfg: *cfg, alpha, mlen, reps, total }
         })
+        .chain(cfgs.iter().filter(|c| c.src != 3).map(|cfg| {
+            // slow 1 : 3 : 9 rhythms with colour changes, motifs of <= 4 notes played twice (consistent-ratio logic)
+            let alpha = Alphabet::product(&[Kind::Circle], &[400, 1200, 3600], &[PosK::Far], &[0, 8], &[0]);
+            let total = alpha.count_upto(4) - 1;
+            MotifUniverse { name: format!("rhythm-1:3:9/{}to{}/len<=4-x2/|A|={}", cfg.src, cfg.dst, alpha.len()), cfg: *cfg, alpha, mlen: 4, reps: 2, total }
+        }))
         .collect()
 }
